@@ -177,6 +177,17 @@ int flush_pubsub_msgs(void *data, const char *key, void *value) {
         M_WARN("Failed to create flushing queue.\n");
     }
 
+    /*
+     * Events received earlier, that were being batched, come first:
+     * messages must reach the module in the order they were sent.
+     */
+    if (!stopping_mod && flushed && m_mod_is(mod, M_MOD_RUNNING)) {
+        void *batched;
+        while ((batched = m_queue_dequeue(mod->batch.events))) {
+            m_queue_enqueue(flushed, batched);
+        }
+    }
+
     while (mod->pubsub_fd[0] != -1 &&
         read(mod->pubsub_fd[0], &mm, sizeof(ps_priv_t *)) == sizeof(ps_priv_t *)) {
         /*
